@@ -28,13 +28,30 @@ class InstrMixin:
         if 'fn' in op:
             return ClosureV(op['fn'], [])
         if 'g' in op:
-            return PtrV('box', self.global_ref(op['g']), self.ty.elem(op['t']))
+            p = PtrV('box', self.global_ref(op['g']), self.ty.elem(op['t']))
+            if op['g'] in self.KNOWN_ERRORS:
+                p.c = op['g']
+            return p
         if 'b' in op:
             return ('builtin', op['b'])
         raise Unsupported('operand %r' % (op,))
 
+    KNOWN_ERRORS = {'io.EOF': 'eof', 'io.ErrUnexpectedEOF': 'unexpectedeof', 'io.ErrShortWrite': 'shortwrite',
+                    'github.com/itchio/wharf/werrors.ErrCancelled': 'cancelled', 'io.ErrShortBuffer': 'shortbuffer',
+                    'context.Canceled': 'ctxcanceled'}
+
     def global_ref(self, name):
         return T.V('global|' + name)
+
+    def known_error(self, name):
+        """immutable package-level error values: distinct non-nil constants; only io.EOF satisfies isEOF."""
+        tag = self.KNOWN_ERRORS[name]
+        v = T.V('err|' + tag)
+        k = sorted(self.KNOWN_ERRORS.values()).index(tag) + 1
+        self.add_fact_once(T.eq(v, T.I(900000 + k)))
+        self.add_fact_once(T.eq(self.uf_iseof(v), T.Bc(tag == 'eof')))
+        self.add_fact_once(T.eq(self.uf_errkind(v), T.I(self.err_kind_id(tag))))
+        return v
 
     def const_value(self, op):
         tn = op['t']
@@ -361,6 +378,9 @@ class InstrMixin:
                 return
             if isinstance(x, PtrV) and x.kind == 'arr':
                 raise Unsupported('array value load')
+            if isinstance(x, PtrV) and x.kind == 'box' and x.c in self.KNOWN_ERRORS and not x.path:
+                self.setreg(ctx, ins, self.known_error(x.c))
+                return
             v = self.load(st, x)
             if is_term(v) and v in self.fnvals:
                 v = self.fnvals[v]
@@ -564,6 +584,7 @@ class InstrMixin:
         self.add_hyp(T.eq(self.uf_dyn(r), T.I(self.ty.type_id(xt))))
         if is_term(x) and T.sort_of(x) == T.INT:
             self.add_hyp(T.eq(self.uf_pay(r), x))
+            self.iface_static[r] = (xt, x)
         self.setreg(ctx, ins, r)
 
     def i_ChangeInterface(self, ctx, ins, st):
